@@ -51,7 +51,9 @@ exit {STATUS}
 def make_backend(d, ident, status=0):
     p = os.path.join(d, "backend_" + ident)
     with open(p, "w") as f:
-        f.write(REC.replace("{ID}", ident).replace("{STATUS}", str(status)))
+        # status "SEGV"/"ABRT": the backend dies from a signal after recording (no exit code at all)
+        ending = "kill -%s $$" % status if isinstance(status, str) else "exit %d" % status
+        f.write(REC.replace("{ID}", ident).replace("exit {STATUS}", ending))
     os.chmod(p, os.stat(p).st_mode | stat.S_IEXEC)
     return p
 
@@ -169,7 +171,8 @@ def _run(case, rng, name, files, ok, expect, sub, opts, d):
         return {"verdict": INCONCLUSIVE, "detail": "library verdict differs from the input's design (%s)" % name}
     # ---- exit status
     backend_should_run = compile_ok and sub != "emit"
-    backend_fails = backend_should_run and is_build and backend_status != 0
+    killed = isinstance(backend_status, str)
+    backend_fails = backend_should_run and ((is_build and backend_status != 0) or killed)
     expect_success = compile_ok and not backend_fails
     if expect_success and p.returncode != 0:
         return bad("non-zero exit status although compilation%s succeeded (%s)" % (" and backend" if sub != "emit" else "", sub))
@@ -222,7 +225,7 @@ def _run(case, rng, name, files, ok, expect, sub, opts, d):
         if leftovers:
             return bad("--silent: output shown", leftovers[:5])
     else:
-        if sub == "run" and compile_ok:
+        if sub == "run" and compile_ok and not killed:
             # our recording lli exits with backend_status: that is "the program's exit status"
             if ("Output: %d" % backend_status) not in out:
                 return bad("run: program exit status not shown as `Output: N`")
@@ -287,7 +290,7 @@ def cases(tier, seed):
     option_space = {
         "silent": [None, True], "verbose": [None, True], "color": [None, "never", "always"], "arrows": [None, "ascii", "unicode"],
         "out_dir": [None, True], "flag": [None, True], "env": [None, True], "config": [None, True], "env_other": [None, True],
-        "wasm": [None, True], "backend_args": [None, True], "backend_status": [0, 0, 3],
+        "wasm": [None, True], "backend_args": [None, True], "backend_status": [0, 0, 0, 3, "SEGV", "ABRT"],
     }
     # systematic: every input x subcommand with no options, and backend precedence lattice
     for name in INPUTS:
@@ -302,6 +305,14 @@ def cases(tier, seed):
                         opts = {k: v for k, v in (("flag", flag), ("env", env), ("config", config), ("env_other", other)) if v}
                         out.append({"seed": seed, "i": i, "input": "valid_multi", "sub": sub, "opts": opts})
                         i += 1
+    for sub in ("build", "run"):
+        for st in (1, "SEGV", "ABRT", "KILL"):
+            for silent in (None, True):
+                opts = {"backend_status": st}
+                if silent:
+                    opts["silent"] = True
+                out.append({"seed": seed, "i": i, "input": "valid_multi", "sub": sub, "opts": opts})
+                i += 1
     n = 110 if tier == "quick" else 3000
     for _ in range(n):
         opts = {}
